@@ -236,6 +236,23 @@ theorem inv_runFrom (ops : List Op) : ∀ g, Inv g → Inv (runFrom g ops) := by
 
 theorem inv_run (ops : List Op) : Inv (run ops) := inv_runFrom ops _ inv_empty
 
+/-- a discovery round is a sequence of `Op` events, so it keeps the partition invariant -/
+theorem inv_discover {g : Group} (h : Inv g) (kp : Nat) (script : List Seg) (nbr : Peer → Bool) :
+    Inv (discover kp script nbr g) :=
+  inv_runFrom _ g h
+
+theorem inv_stepApply {g : Group} (h : Inv g) (s : Step) : Inv (stepApply g s) := by
+  cases s with
+  | op o => exact inv_apply h o
+  | find kp script nbr => exact inv_discover h kp script nbr
+
+theorem inv_runSteps (l : List Step) : Inv (runSteps l) := by
+  have : ∀ g, Inv g → Inv (l.foldl stepApply g) := by
+    induction l with
+    | nil => intro g h; exact h
+    | cons s l ih => intro g h; exact ih _ (inv_stepApply h s)
+  exact this _ inv_empty
+
 /-- `o` takes `p` out of `connected`: a remove, an add into known, or an add while not a neighbour -/
 def unseats (p : Peer) : Op → Bool
   | .add q keep nb => q = p && !(keep && nb)
